@@ -43,6 +43,10 @@ struct Case {
   int threads = 1;           // >1: also construct with this many threads and compare
 };
 
+/// documented plane-test tolerance of the old construction (OldVoronoiCell.hpp:66). The allowances of
+/// the check are derived from this specified value, not from whatever the code under test defines.
+static const double OLD_TOL_SPEC = 2.e-10;
+
 static const double PHI[3] = {1.4142135623730951, 1.7320508075688772, 2.2360679774997896};
 static inline double frac(double x) { return x - std::floor(x); }
 /// fixed irrational perturbation pattern in [-0.5,0.5)^3 for point number q
@@ -52,7 +56,7 @@ static V3 pattern(long q, long seed) {
 }
 
 /// The old construction decides "vertex on the cutting plane" with an absolute tolerance eps_old =
-/// OLDVORONOI_TOLERANCE * |sides|^2 on (squared) lengths, which snaps vertices within delta_old =
+/// OLD_TOL_SPEC * |sides|^2 on (squared) lengths, which snaps vertices within delta_old =
 /// 4 eps_old / s_gen of a plane (s_gen: smallest generator distance). The property binds it only on
 /// inputs whose distance from degeneracy (margin) is at least 100 delta_old.
 static void finish_case(Case &c) {
@@ -60,7 +64,7 @@ static void finish_case(Case &c) {
   for (size_t i = 0; i < c.gen.size(); ++i)
     for (size_t j = i + 1; j < c.gen.size(); ++j)
       s_gen = std::min(s_gen, (c.gen[i] - c.gen[j]).norm());
-  const double delta_old = 4. * OLDVORONOI_TOLERANCE * c.sides.norm2() / s_gen;
+  const double delta_old = 4. * OLD_TOL_SPEC * c.sides.norm2() / s_gen;
   if (c.margin < 0.)
     c.margin = 0.5 * s_gen; // generic sets: smallest feature
   c.margin_ratio = c.margin / (100. * delta_old);
@@ -123,7 +127,8 @@ static void build_subsets() {
   }
 }
 
-static Case subset_case(uint32_t mask, bool perturbed, long seed) {
+static Case subset_case(uint32_t mask, double amp, long seed) {
+  const bool perturbed = amp > 0.;
   Case c;
   c.anchor = V3(0.);
   c.sides = V3(1.);
@@ -133,15 +138,23 @@ static Case subset_case(uint32_t mask, bool perturbed, long seed) {
       continue;
     V3 p(0.25 + 0.25 * (q / 9), 0.25 + 0.25 * ((q / 3) % 3), 0.25 + 0.25 * (q % 3));
     if (perturbed)
-      p += 1.e-3 * pattern(q, seed);
+      p += amp * pattern(q, seed);
     c.gen.push_back(p);
     ids += (ids.empty() ? "" : ",") + fmt("%d", q);
   }
-  c.family = fmt("lattice-subset-%zu%s", c.gen.size(), perturbed ? "-perturbed" : "-exact");
-  c.name = fmt("subset%s:%s", perturbed ? "P" : "E", ids.c_str());
+  if (amp == 0.) {
+    c.family = fmt("lattice-subset-%zu-exact", c.gen.size());
+    c.name = fmt("subsetE:%s", ids.c_str());
+  } else if (amp == 1.e-3) {
+    c.family = fmt("lattice-subset-%zu-perturbed", c.gen.size());
+    c.name = fmt("subsetP:%s", ids.c_str());
+  } else {
+    c.family = fmt("lattice-subset-%zu-near-degenerate-%g", c.gen.size(), amp);
+    c.name = fmt("subsetN%g:%s", amp, ids.c_str());
+  }
   c.degenerate = !perturbed;
   c.run_old = perturbed; // (i): new construction only
-  c.margin = perturbed ? 0.5e-3 : 0.;
+  c.margin = 0.5 * amp;
   finish_case(c);
   return c;
 }
@@ -315,7 +328,7 @@ static Case shell_case(int shell, bool centre, double pert, const BoxShape &B, l
     p = V3(B.anchor.x() + p.x() * B.sides.x(), B.anchor.y() + p.y() * B.sides.y(),
            B.anchor.z() + p.z() * B.sides.z());
   c.degenerate = (pert == 0.);
-  c.family = pert == 0. ? "cospherical-exact" : "cospherical-perturbed";
+  c.family = pert == 0. ? "cospherical-exact" : (pert >= 1.e-3 ? "cospherical-perturbed" : fmt("cospherical-near-degenerate-%g", pert));
   c.name = fmt("shell:s=%d:centre=%d:pert=%g:box=%s", shell, (int)centre, pert, B.name);
   c.margin = 0.5 * pert * std::min(B.sides.x(), std::min(B.sides.y(), B.sides.z()));
   finish_case(c);
@@ -354,9 +367,22 @@ static std::vector< Case > family_cases(bool thorough, long seed) {
       for (int centre = 0; centre < 2; ++centre) {
         L.push_back(shell_case(s, centre, 0., BOXES[b], seed));
         L.push_back(shell_case(s, centre, 1.e-3, BOXES[b], seed));
-        if (thorough)
-          L.push_back(shell_case(s, centre, 1.e-6, BOXES[b], seed));
+
       }
+  return L;
+}
+
+/// cospherical shells perturbed by amplitudes from far above to just above round-off
+static std::vector< Case > near_degenerate_shells(bool thorough, long seed) {
+  std::vector< Case > L;
+  for (int b = 0; b < 4; ++b)
+    for (int s = 0; s < 5; ++s)
+      for (int centre = 0; centre < 2; ++centre)
+        for (double amp : {1.e-6, 1.e-9, 1.e-12, 1.e-14}) {
+          if (!thorough && b != 0 && amp != 1.e-9)
+            continue;
+          L.push_back(shell_case(s, centre, amp, BOXES[b], seed));
+        }
   return L;
 }
 
@@ -509,7 +535,7 @@ static Tol make_tol(const Case &c, bool is_old) {
   }
   const double s_min = std::min(s_gen, s_wall);
   const double d_fp = 16. * DBL_EPSILON * T.L * T.L / s_min;
-  const double d_old = is_old ? 4. * OLDVORONOI_TOLERANCE * c.sides.norm2() / s_gen : 0.;
+  const double d_old = is_old ? 4. * OLD_TOL_SPEC * c.sides.norm2() / s_gen : 0.;
   T.extra = d_fp + d_old;
   T.delta = std::max(1.e-10 * T.L, T.extra);
   T.Amin = 1.e-12 * T.L * T.L;
@@ -808,7 +834,7 @@ static void compare(const Case &c, const GridD &N, const GridD &O, const Tol &T,
   for (size_t i = 0; i < n; ++i)
     for (size_t j = i + 1; j < n; ++j)
       smin = std::min(smin, (c.gen[i] - c.gen[j]).norm());
-  const double eps_old = OLDVORONOI_TOLERANCE * c.sides.norm2();
+  const double eps_old = OLD_TOL_SPEC * c.sides.norm2();
   const double Acmp = std::max(T.Amin, 2. * c.sides.norm() * eps_old / smin);
   w_max("old_vs_new_neighbour_area_threshold_over_L2", Acmp / (T.L * T.L));
   bool vbad = false, cbad = false, nbad = false;
@@ -902,14 +928,16 @@ static bool rescaled_outside_range(const Case &c, std::string &what) {
   return false;
 }
 
-/// does the Delaunay structure of some cell contain a tetrahedron (with the generator as vertex) that the
-/// predicates accepted on the rescaled coordinates but that is flat in the real coordinates the geometry
-/// (circumcentres) is computed from?
+/// flattest tetrahedron (with the generator as vertex) in the Delaunay structures of all cells: the
+/// predicates accept a tetrahedron on the rescaled coordinates, the geometry (circumcentres) is computed
+/// from the real coordinates, where it may be flat (0/0) or a sliver (relative error eps / flatness).
+/// flatness = 6 |volume| / (longest edge)^3.
 static bool flat_real_tetrahedron(const Case &c, std::string &what) {
   if (c.gen.size() > 400)
     return false;
   const NewVoronoiGrid g(c.gen, Box<>(c.anchor, c.sides));
   NewVoronoiCellConstructor C;
+  double fmin = DBL_MAX;
   for (size_t i = 0; i < c.gen.size(); ++i) {
     C.setup(i, g._real_generator_positions, g._real_voronoi_box, g._real_rescaled_positions, g._real_rescaled_box,
             true);
@@ -936,14 +964,16 @@ static bool flat_real_tetrahedron(const Case &c, std::string &what) {
       for (int k = 0; k < 4; ++k)
         for (int m = k + 1; m < 4; ++m)
           l = std::max(l, (p[k] - p[m]).norm());
-      if (vol <= 1.e-9 * l * l * l) {
-        what = fmt("cell %zu: Delaunay tetrahedron %s %s %s %s has real volume %.3g (longest edge %.3g)", i,
-                   v3s(p[0]).c_str(), v3s(p[1]).c_str(), v3s(p[2]).c_str(), v3s(p[3]).c_str(), vol / 6., l);
-        return true;
+      const double f = vol / (l * l * l);
+      if (f < fmin) {
+        fmin = f;
+        what = fmt("flattest Delaunay tetrahedron (cell %zu): %s %s %s %s, flatness 6|V|/l^3 = %.3g", i,
+                   v3s(p[0]).c_str(), v3s(p[1]).c_str(), v3s(p[2]).c_str(), v3s(p[3]).c_str(), f);
       }
     }
   }
-  return false;
+  // a circumcentre loses a factor 1/flatness: below 1e-5 the baseline accuracy 1e-10 is out of reach
+  return fmin <= 1.e-5;
 }
 
 /// the diagnosis drives the real constructor again on an input it already mishandled: run it in a child
@@ -1034,7 +1064,9 @@ static void run_case(const Case &c, int stage_timeout, bool verbose) {
     std::string what;
     if (rescaled_outside_range(c, what)) {
       regime = ":rescaled-coordinate-outside-[1,2)";
-      w_violation("C15:new:rescaled-coordinate-outside-[1,2):" + c.family,
+      // the class is the box geometry, not the generator family
+      w_violation(fmt("C15:new:rescaled-coordinate-outside-[1,2):box-sides=%gx%gx%g", c.sides.x(), c.sides.y(),
+                      c.sides.z()),
                   fmt("case %s (box sides %s): %s; the exact predicates read the 52-bit mantissa and require "
                       "coordinates in [1,2)",
                       c.name.c_str(), v3s(c.sides).c_str(), what.c_str()));
@@ -1084,7 +1116,8 @@ static void run_case(const Case &c, int stage_timeout, bool verbose) {
     w_begin("old-check");
     // outside its domain the old construction is only observed
     Findings fo;
-    const bool ook = validate("old", c, O, Q, TO, fo);
+    // statistics of unjudged runs are kept apart
+    const bool ook = validate(c.old_in_domain ? "old" : "old(outside-domain,info)", c, O, Q, TO, fo);
     if (c.old_in_domain)
       write_findings(fo, "");
     if (verbose)
@@ -1134,12 +1167,13 @@ struct Provider {
   bool thorough;
   std::vector< Case > list;       // families / threads
   const std::vector< uint32_t > *masks = nullptr; // subsets
-  bool perturbed = false;
-  long size() const { return masks ? (long)masks->size() : (long)list.size(); }
+  std::vector< double > amps;                      // perturbation amplitudes of the subsets
+  long nsub() const { return masks ? (long)(masks->size() * amps.size()) : 0; }
+  long size() const { return nsub() + (long)list.size(); }
   Case get(long i) const {
-    if (masks)
-      return subset_case((*masks)[i], perturbed, seed);
-    return list[i];
+    if (i < nsub())
+      return subset_case((*masks)[i % masks->size()], amps[i / masks->size()], seed);
+    return list[i - nsub()];
   }
   long find(const std::string &name) const {
     for (long i = 0; i < size(); ++i)
@@ -1154,9 +1188,16 @@ static Provider make_provider(const std::string &mode, bool thorough, long seed)
   P.mode = mode;
   P.seed = seed;
   P.thorough = thorough;
-  if (mode == "subsets_exact" || mode == "subsets_perturbed") {
+  if (mode == "subsets_exact" || mode == "subsets_perturbed" || mode == "near_degenerate") {
     P.masks = thorough ? &g_subsets.all : &g_subsets.reps;
-    P.perturbed = (mode == "subsets_perturbed");
+    if (mode == "subsets_exact")
+      P.amps = {0.};
+    else if (mode == "subsets_perturbed")
+      P.amps = {1.e-3};
+    else {
+      P.amps = {1.e-6, 1.e-9, 1.e-12, 1.e-14}; // nearly degenerate: from far above to just above round-off
+      P.list = near_degenerate_shells(thorough, seed);
+    }
   } else if (mode == "families") {
     P.list = family_cases(thorough, seed);
   } else if (mode == "threads") {
@@ -1443,6 +1484,10 @@ int main(int argc, char **argv) {
     return R.finish(A);
   }
 
+  if (OLDVORONOI_TOLERANCE != OLD_TOL_SPEC)
+    R.violation("C15:old:tolerance-constant-changed",
+                fmt("OLDVORONOI_TOLERANCE is %.17g, the documented value the allowances are derived from is %.17g",
+                    (double)OLDVORONOI_TOLERANCE, OLD_TOL_SPEC));
   const Provider P = make_provider(mode, A.thorough(), seed);
   int nworkers = (int)A.geti("workers", mode == "threads" ? 4 : 16);
   run_pool(P, R, A, nworkers, stage_timeout);
